@@ -111,4 +111,53 @@ filterOut = FunctionSpec(
     note="one row per query id, ascending ids; the kept row is an input row of maximal confidence among the rows of its query; every query id is represented "
          "(two stable sorts + groupby, all assumed library contracts)")
 
-SPECS = [check_overlap, create, filterOut]
+
+# ------------------------------------------------------------------ AlignmentResultRow.getUnalignedFragments
+OMAP = OBJ('OpticalMap')
+
+
+def _first_with_id(C):
+    """index of the first map of `queries` whose id is the row's query id"""
+    Q = C.queries
+    i = z3.Int(fresh_name('qi'))
+    return i
+
+
+def _guf_requires(C):
+    Q = C.queries
+    k, j = z3.Int('k'), z3.Int('j')
+    me = C.self
+    has = z3.Exists([k], z3.And(rng(0, k, Q.len), Q[k].moleculeId == me.queryId))
+    # on the forward strand the row's query start / end are coordinates of labels of that query (AlignmentResultRow.create + trim)
+    inq = lambda x: forall(k, z3.Implies(z3.And(rng(0, k, Q.len), Q[k].moleculeId == me.queryId),
+                                         z3.Exists([j], z3.And(rng(0, j, Q[k].positions.len), Q[k].positions[j] == x))), [Q.raw(k).t])
+    return [('the_query_is_among_the_maps', has),
+            ('forward_start_and_end_are_label_coordinates', z3.Implies(z3.Not(me.reverseStrand), z3.And(inq(me.queryStartPosition), inq(me.queryEndPosition))))]
+
+
+def _guf_ensures(C, res):
+    me = C.self
+    k, t = z3.Int('k'), z3.Int('t')
+    cl = [('at_most_two_fragments', res.len <= 2),
+          ('fragments_carry_the_whole_query_id_and_length', forall(k, z3.Implies(rng(0, k, res.len), z3.And(
+              res[k].moleculeId == me.queryId, res[k].length == me.queryLength)), [res.raw(k).t]))]
+    if C.has('F') and C.F.has('query'):
+        q = C.F.query
+        q = q.val if hasattr(q, 'none') else q
+        P = q.positions
+        cl.append(('fragment_is_a_slice_of_the_query_and_shift_is_the_slice_start', forall(k, z3.Implies(rng(0, k, res.len), z3.And(
+            res[k].shift >= 0, res[k].shift + res[k].positions.len <= P.len,
+            forall(t, z3.Implies(rng(0, t, res[k].positions.len), res[k].positions[t] == P[res[k].shift + t]),
+                   [res[k].positions[t]]))), [res.raw(k).t])))
+        cl.append(('the_map_used_is_the_row_s_query', q.moleculeId == me.queryId))
+    return cl
+
+
+getUnalignedFragments = FunctionSpec(
+    file=F, qualname='AlignmentResultRow.getUnalignedFragments', params=dict(self=ROW, queries=LIST(OMAP)), returns=LIST(OMAP),
+    requires=_guf_requires, ensures=_guf_ensures, serves=('C02', 'C10'),
+    note="every fragment handed to the second pass carries the whole query's id and length, its positions are a slice query.positions[a:a+n] of the "
+         "query found by id, and its shift is a - so label numbers and coordinates of second-pass records refer to the whole query; no exception "
+         "(query lookup, list.index, slicing with Python's negative-index semantics)")
+
+SPECS = [check_overlap, create, filterOut, getUnalignedFragments]
